@@ -220,7 +220,7 @@ const REGRESSIONS: [&str; 7] = [
 ];
 
 pub fn def(tier: Tier) -> CheckDef {
-    let rounds = tier.pick(10, 150);
+    let rounds = tier.pick(10, 100);
     let max_size = tier.pick(5, 6);
     let budget = crate::checks::c02::step_budget(tier);
     CheckDef {
@@ -228,7 +228,7 @@ pub fn def(tier: Tier) -> CheckDef {
         level: "exploration",
         rule: "accepted programs from (a) type-directed generation: plain, annotation-erased / hole-inserted, and type-breaking mutants (most mutants are rejected; the accepted ones are run), (b) a risky-order class: groups of 2-4 int / int -> int definitions in which non-value definitions freely mention earlier, later and nested definitions, nested in definitions and in function bodies to depth 3, (c) every closed explicit program up to size 5/6 over a small vocabulary (exhaustive), (d) /repo/examples and the inputs quoted in the property; oracle = gram's own `step` relation under a budget must end in a value, still be running, or be blocked exactly at `literal / 0`; a stuck term is classified by descending the call-by-value evaluation contexts to the blocking redex; non-trivial = accepted, >= 3 steps (or a division by zero) and a group, recursion, nesting, higher-order call, hole / erased annotation or type-level computation; distinct by text",
         assumptions: vec![
-            "'keeps running' is observed as 'no value after 20 000 (quick) / 200 000 (thorough) steps'",
+            "'keeps running' is observed as 'no value after 20 000 (quick) / 60 000 (thorough) steps'",
             "three recorded findings are matched by signature on the blocking redex: a group variable whose definition is a syntactic value (later value definition), an unresolved hole, and a wrong-kind redex in a program during whose checking `open` copied an unresolved hole (hook counter)",
         ],
         idle_limit_s: 180,
